@@ -41,6 +41,7 @@ pub struct Plan {
 static TICK: AtomicU64 = AtomicU64::new(0);
 static DONE: AtomicU64 = AtomicU64::new(0);
 static CURRENT: Mutex<String> = Mutex::new(String::new());
+static CURRENT_VECTOR: Mutex<String> = Mutex::new(String::new());      // replay mode: the input line being worked on
 const HANG_SECS: u64 = 60;
 
 fn start_watchdog(runtime: &'static str, mode: &'static str) {
@@ -52,8 +53,9 @@ fn start_watchdog(runtime: &'static str, mode: &'static str) {
             if t == last && t > DONE.load(Ordering::SeqCst) { still += 1 } else { still = 0; last = t; }
             if still >= HANG_SECS {
                 let cur = CURRENT.lock().map(|g| g.clone()).unwrap_or_default();
+                let vector: Value = CURRENT_VECTOR.lock().ok().and_then(|g| serde_json::from_str(&g).ok()).unwrap_or(Value::Null);
                 out_line(&json!({"summary": mode == "replay", "hang": format!("{} parser did not return within {} s on: {}", runtime, HANG_SECS, cur),
-                                 "runtime": runtime}));
+                                 "runtime": runtime, "vector": vector}));
                 std::process::exit(0);
             }
         }
@@ -306,6 +308,7 @@ pub fn replay(parser: &dyn Parser) {
     let mut rich_samples = 0;
     for line in stdin_lines() {
         let v: Value = match serde_json::from_str(&line) { Ok(v) => v, Err(_) => continue };
+        if let Ok(mut g) = CURRENT_VECTOR.lock() { *g = line.clone(); }
         let wire = pct_decode(v["b"].as_str().expect("b"));
         let peer = peer_addr(std::str::from_utf8(&pct_decode(v["peer"]["ip"].as_str().unwrap())).unwrap(), v["peer"]["port"].as_u64().unwrap() as u16);
         let exp = exp_from_json(&v["exp"]);
